@@ -327,8 +327,10 @@ class JsonSchemaGenerator:
                 # will count options.ignore_required in
                 required.append(name)
             elif self.output:
-                if not field.no_default:
-                    # if field has default, the value is required in the output data
+                if not field.no_default and not options.no_default and not (
+                    field.defer_default or options.defer_default
+                ):
+                    # if the default is filled in when parsing, the value is required in the output data
                     required.append(name)
 
         data.update(properties=properties)
